@@ -229,10 +229,16 @@ Definition judge (c : c08case) : N :=
                                   (annots_oas o) && defs_annots_ok defs comps in
           if sup then
             if sem_ok && ann_ok then (if model_ok then V_AGREE else V_DIVERGE)
-            else if negb no_k4 && model_ok && ann_ok then V_K4
-            else if negb no_k6 && model_ok && ann_ok then V_K6
-            else if param && model_ok && sem_ok then V_K5
-            else V_VIOLATION
+            else if negb model_ok then V_VIOLATION
+            else
+              (* the published schema is the model's; a deviation is reported
+                 under a known class only if that class is present in the case
+                 (a case may be in several) *)
+              let sem_explained := sem_ok || negb no_k4 || negb no_k6 in
+              let ann_explained := ann_ok || param in
+              if sem_explained && ann_explained then
+                (if sem_ok then V_K5 else if negb no_k4 then V_K4 else V_K6)
+              else V_VIOLATION
           else (if model_ok then V_AGREE else V_DIVERGE)
       end
   end.
